@@ -702,6 +702,9 @@ pub enum Op {
     ClearParent(u8),
     /// Insert `F` with a value the client's deserialization function refuses.
     InsPoison(u8),
+    /// Insert `F` with an acceptable value / mutate it to a refused one.
+    InsF(u8),
+    MutPoison(u8),
     /// The second relationship: `OwnedBy(owner)` on slot.
     SetOwner(u8, u8),
     ClearOwner(u8),
@@ -763,6 +766,8 @@ impl Op {
             Op::SetParent(s, p) => format!("set parent of e{} to e{}", s + 1, p + 1),
             Op::ClearParent(s) => format!("clear parent of e{}", s + 1),
             Op::InsPoison(s) => format!("insert F with a value the client refuses on e{}", s + 1),
+            Op::InsF(s) => format!("insert F on e{}", s + 1),
+            Op::MutPoison(s) => format!("mutate F of e{} to a value the client refuses", s + 1),
             Op::SetOwner(s, p) => format!("set owner of e{} to e{}", s + 1, p + 1),
             Op::ClearOwner(s) => format!("clear owner of e{}", s + 1),
             Op::InsBig(s, l) => format!("insert Big({l}) on e{}", s + 1),
@@ -1115,7 +1120,8 @@ impl Sim {
                     && !self.is_ancestor(s, p)
             }
             Op::ClearParent(s) => self.alive(s).is_some_and(|e| self.has_tag(e, TCHILD)),
-            Op::InsPoison(s) => self.cfg.with_f && self.alive(s).is_some_and(|e| self.server.world().get::<F>(e).is_none()),
+            Op::InsPoison(s) | Op::InsF(s) => self.cfg.with_f && self.alive(s).is_some_and(|e| self.server.world().get::<F>(e).is_none()),
+            Op::MutPoison(s) => self.cfg.with_f && self.alive(s).is_some_and(|e| self.server.world().get::<F>(e).is_some()),
             Op::SetOwner(s, p) => {
                 self.cfg.with_owner
                     && s != p
@@ -1368,6 +1374,14 @@ impl Sim {
             Op::InsPoison(s) => {
                 let e = self.alive(s).unwrap();
                 self.server.world_mut().entity_mut(e).insert(F([MAGIC, s + 1, 8, v, 0x5B]));
+            }
+            Op::InsF(s) => {
+                let e = self.alive(s).unwrap();
+                self.server.world_mut().entity_mut(e).insert(F([MAGIC, s + 1, 8, v, MAGIC_END]));
+            }
+            Op::MutPoison(s) => {
+                let e = self.alive(s).unwrap();
+                *self.server.world_mut().get_mut::<F>(e).unwrap() = F([MAGIC, s + 1, 8, v, 0x5B]);
             }
             Op::SetOwner(s, p) => {
                 let e = self.alive(s).unwrap();
